@@ -219,7 +219,10 @@ func validLoops(loops [][]kit.V2) error {
 				}
 				continue
 			}
-			if kit.SegmentsProperlyCross(a.s[0], a.s[1], b.s[0], b.s[1]) {
+			// every orientation determinant of a real crossing is >= clr^2 here (the endpoint distances
+			// below are checked too); a threshold of 1e-9 d^2 keeps colinear runs (rounding noise of
+			// either sign) from being reported as crossings
+			if tolerantCross(a.s[0], a.s[1], b.s[0], b.s[1], 1e-9*d*d) {
 				return fmt.Errorf("loop %d edge %d crosses loop %d edge %d", a.loop, a.idx, b.loop, b.idx)
 			}
 			for k := 0; k < 2; k++ {
